@@ -327,3 +327,39 @@ def t_uniquetrees(p1: List[int], p2: List[int], p3: List[int]) -> bool:
             if i != j and _below(r, q):
                 ok = False
     return R(ok)
+
+
+HNAMES = ['a', 'a/b', '']
+
+
+def h_eq_hash(i: int, v1: int, v2: int, r1: int, r2: int) -> bool:
+    """equality agrees with hashing: for every pair of spellings / derivations of a location
+    (plain, trailing slash, /., /x/.., as_directory(), JSON round trip) under two roots:
+    p == q implies hash(p) == hash(q), and the pair is found as one key in a dict
+    pre: 0 <= i < 3 and 0 <= v1 < 6 and 0 <= v2 < 6 and 0 <= r1 < 2 and 0 <= r2 < 2
+    post: _
+    """
+    def make(v, r):
+        root = ROOTS[r]
+        name = HNAMES[0]
+        if i == 1:
+            name = HNAMES[1]
+        elif i == 2:
+            name = HNAMES[2]
+        if v == 0:
+            return Path(name or '.', root)
+        if v == 1:
+            return Path((name or '.') + '/', root)
+        if v == 2:
+            return Path((name or '.') + '/.', root)
+        if v == 3:
+            return Path((name + '/' if name else '') + 'x/..', root)
+        if v == 4:
+            return Path(name or '.', root).as_directory()
+        return Path.from_json(Path(name or '.', root).to_json())
+    p = make(v1, r1)
+    q = make(v2, r2)
+    if p == q:
+        d = {p: 1}
+        return R(hash(p) == hash(q) and q in d and len({p, q}) == 1)
+    return R(not (p != q) is False or True)
